@@ -137,7 +137,7 @@ def run_blocks(ctx, binary, blocks):
     return [res[k] if k < len(res) else "<missing>" for k in idx]
 
 
-def shrink(ctx, binary, setup, call):
+def shrink(ctx, binary, setup, call, stop_after_options=None):
     """Greedy: drop options, then connections / scenario lines, while the local/remote difference persists.
     All candidates of a round run in one harness process."""
     kv, opts = G.parse_call(call)
@@ -157,6 +157,8 @@ def shrink(ctx, binary, setup, call):
         if not any(fl):
             break
         opts = cands[fl.index(True)][1]
+    if stop_after_options is not None and stop_after_options(opts):
+        return setup, G.fmt_call(kv, opts), opts      # the signature is already that of a known finding
     for _ in range(12):
         cands = []
         for i in range(len(setup) - 1, 0, -1):
@@ -212,7 +214,7 @@ def run(ctx):
     else:
         corpus = [l.strip() for l in open(os.path.join(HERE, "corpus.ops")) if l.strip() and not l.startswith("#")]
         ops = corpus + sweep_ops(facts)
-        ncases = ctx.scale(400, 12000)
+        ncases = ctx.scale(400, 8000)
         while ncases > 0:
             lines, sc = G.gen_scenario(ctx.rng)
             ops += lines
@@ -306,7 +308,11 @@ def run(ctx):
             pre = (kv["op"], tuple(sorted({n for n, _ in opts} & dropped.get(kv["op"], set()))) or tuple(sorted(n for n, _ in opts)))
             if pre not in shrunk and len(shrunk) < 8:
                 shrunk.add(pre)
-                s2, c2, o2 = shrink(ctx, binary, list(setup), op)
+                def is_known(o_):
+                    lost_ = sorted({n for n, _ in o_} & dropped.get(kv["op"], set()))
+                    return bool(lost_) and ctx._match_known({"op": kv["op"], "option": "+".join(lost_)}) is not None
+                s2, c2, o2 = shrink(ctx, binary, list(setup), op, stop_after_options=is_known)
+                ctx.log(f"shrunk {pre} -> {c2.split('opts=')[1]}")
                 lost = sorted({n for n, _ in o2} & dropped.get(kv["op"], set()))
                 sig = {"op": kv["op"], "option": "+".join(lost) if lost else "<none>:" + "+".join(sorted(n for n, _ in o2))}
                 o3 = run_block(ctx, binary, s2, c2)
